@@ -24,6 +24,24 @@ OPS = ("merged", "markers", "zero", "drifts")
 F28_TEXT = ("a filter that removes every element returns an empty Segment whose .length raises TypeError "
             "(reduce() of an empty list) instead of being 0 [F28]")
 
+# Finding F28 (Segment.length = reduce(torch.add, lengths) raised TypeError for an empty segment, hence for every segment
+# holding an empty sub-segment, and inside transfer_maps_merged / the two length-reading filters).  While F28 is listed
+# `known` the faithful model is the code before the repair (Lattice/ZOps.c08_check: has_empty_seg / filter_raises /
+# merged_raises say where the code raises, and an empty result's length is worked around); once it is flipped to `fixed`
+# the model is c08_check_len_total (lengths are total, nothing raises), a raising length is a failure of the property and
+# the empty results / empty sub-segments are compared like everything else.
+STATE = {"f28_known": True, "f28_back": False}
+
+
+def f28_known():
+    return any(f["id"] == "F28" and f.get("status") == "known" for f in common.load_known_findings(PID))
+
+
+def _f28_regression(d):
+    """tag of a failure that is exactly the repaired defect F28 (a length that raises TypeError), so that it is reported once,
+    through the stored input of the fixed entry"""
+    return dict(d, regression_of=[F28_TEXT])
+
 
 # ---------------------------------------------------------------- integer test elements with an `is_active` attribute
 class ZMapA(zl.ZMap):
@@ -134,12 +152,76 @@ def coq_case(tree, beam, ex, obs):
     return (f"mkc08 {zl.coq_elem(tree)} {zl.coq_beam(beam)} {coq_list([coq_string(n) for n in ex])} {mg} {mk} {ze} {dr}")
 
 
+F28_SHAPES = ("all_markers", "all_zero_length", "empty_top", "only_empty_sub", "empty_sub_in_run", "empty_sub_in_run",
+              "empty_sub_mixed", "markers_and_empty_sub")
+
+
+def has_empty_seg(e):
+    return e["kind"] == "seg" and (not e["es"] or any(has_empty_seg(c) for c in e["es"]))
+
+
+def gen_f28_tree(rng, counter):
+    """Lattices in the region of finding F28: EMPTY results (a filter removes every element) and EMPTY sub-segments (alone,
+    inside a run of skippable elements that transfer_maps_merged merges, next to non-skippable elements, nested twice)."""
+    def nm():
+        counter[0] += 1
+        return f"e{counter[0]}"
+
+    def marker():
+        return {"kind": "marker", "name": nm(), "len": 0}
+
+    def empty():
+        e = {"kind": "seg", "name": nm(), "es": []}
+        for _ in range(rng.choice([0, 0, 0, 1, 2])):
+            e = {"kind": "seg", "name": nm(), "es": [e]}
+        return e
+
+    def zero_leaf():
+        l = zl.gen_leaf(rng, nm(), kinds=("map", "ctm", "marker"))
+        l["len"] = 0
+        return l
+
+    def skippable_leaf():
+        return zl.gen_leaf(rng, nm(), kinds=("map", "map", "ctm", "marker"))
+
+    shape = rng.choice(F28_SHAPES)
+    if shape == "all_markers":
+        es = [marker() for _ in range(rng.randrange(1, 4))]
+    elif shape == "all_zero_length":
+        es = [zero_leaf() for _ in range(rng.randrange(1, 4))]
+    elif shape == "empty_top":
+        es = []
+    elif shape == "only_empty_sub":
+        es = [empty()]
+    elif shape == "empty_sub_in_run":
+        es = [skippable_leaf() for _ in range(rng.randrange(0, 3))] + [empty()] + [skippable_leaf() for _ in range(rng.randrange(0, 3))]
+        if rng.random() < 0.3:
+            es += [zl.gen_leaf(rng, nm(), kinds=("non",)), empty()]
+    elif shape == "empty_sub_mixed":
+        es = [zl.gen_leaf(rng, nm()) for _ in range(rng.randrange(1, 5))]
+        for _ in range(rng.choice([1, 1, 2])):
+            es.insert(rng.randrange(len(es) + 1), empty())
+    else:   # markers_and_empty_sub: the marker filter leaves only empty sub-segments, the zero-length filter nothing
+        es = [marker() for _ in range(rng.randrange(1, 3))]
+        es.insert(rng.randrange(len(es) + 1), empty())
+    counter[0] += 1
+    return {"kind": "seg", "name": f"s{counter[0]}", "es": es}, shape
+
+
 def gen_case(rng, depth):
     counter = [0]
-    tree = zl.gen_tree(rng, depth, 7, counter, name_pool=["dup1", "dup2"])
-    if len(tree["es"]) < 2 and rng.random() < 0.8:     # merging needs a few top-level elements
+    shape = None
+    if rng.random() < 0.15:
+        tree, shape = gen_f28_tree(rng, counter)
+    else:
         tree = zl.gen_tree(rng, depth, 7, counter, name_pool=["dup1", "dup2"])
+        if len(tree["es"]) < 2 and rng.random() < 0.8:     # merging needs a few top-level elements
+            tree = zl.gen_tree(rng, depth, 7, counter, name_pool=["dup1", "dup2"])
     decorate(rng, tree)
+    if shape == "all_zero_length":
+        for l in zl.leaves(tree):          # an is_active attribute that is False: still removed
+            if l.get("has_active"):
+                l["active"] = False
     beam = zl.gen_beam(rng)
     names = [c["name"] for c in tree["es"]]
     inner = [l["name"] for c in tree["es"] if c["kind"] == "seg" for l in zl.leaves(c)]
@@ -148,9 +230,9 @@ def gen_case(rng, depth):
         ex.append("absent")
     if inner and rng.random() < 0.2:
         ex.append(rng.choice(inner))       # a nested element's name: must have no effect
-    if rng.random() < 0.15:
+    if rng.random() < 0.15 or (shape in ("all_markers", "all_zero_length") and rng.random() < 0.6):
         ex = []
-    return tree, beam, ex
+    return tree, beam, ex, shape
 
 
 def align_merged(orig, new, ex, changers=()):
@@ -198,10 +280,22 @@ def excepted_ok(seg, new, ex):
 
 def int_oracle(obs, ex):
     """The property on the implementation alone, integer lattice: merged / marker-free segment tracks like the
-    original, same length, excepted elements kept, merges only over skippable non-excepted runs."""
+    original, same length, excepted elements kept, merges only over skippable non-excepted runs.  While F28 is listed
+    known, a transformation / length that raised TypeError (empty (sub-)segment) is skipped; after its repair every
+    transformation must return and every length must exist and equal the original's."""
     import cheetah
     bad = []
     seg = obs["_seg"]
+    known28 = STATE["f28_known"]
+    if not known28:
+        if obs["ref_len"] is None:
+            bad.append(_f28_regression({"op": "length", "what": "Segment.length of the original segment raised TypeError (it holds an empty (sub-)segment)"}))
+        for op in OPS:
+            if obs[op] is None:
+                bad.append(_f28_regression({"op": op, "what": "the transformation raised TypeError (length of an empty (sub-)segment)"}))
+            elif obs[op]["len"] is None:
+                bad.append(_f28_regression({"op": op, "what": "length of the result raised TypeError (empty result or empty sub-segment)",
+                                            "n_elements": len(obs[op]["ds"])}))
     for op in ("merged", "markers"):
         d = obs[op]
         if d is None:
@@ -210,8 +304,10 @@ def int_oracle(obs, ex):
         if d["out"] != obs["ref_out"]:
             bad.append({"op": op, "what": "tracking result differs from the original segment's", "got": d["out"], "expected": obs["ref_out"]})
         if obs["ref_len"] is not None and d["len"] != obs["ref_len"]:
-            if d["len"] is None and len(new.elements) == 0 and obs["ref_len"] == 0:
+            if d["len"] is None and known28 and len(new.elements) == 0 and obs["ref_len"] == 0:
                 obs["_empty_result"] = True      # known finding F28: Segment([]).length raises
+            elif d["len"] is None and not known28:
+                pass                             # reported above (regression of F28)
             else:
                 bad.append({"op": op, "what": "total length differs", "got": d["len"], "expected": obs["ref_len"]})
         if d["name"] != seg.name:
@@ -241,17 +337,21 @@ def int_oracle(obs, ex):
         if op == "drifts":
             if [o.name for o in new.elements] != [e.name for e in seg.elements]:
                 bad.append({"op": op, "what": "element names changed"})
-            if obs["ref_len"] is not None and obs[op]["len"] != obs["ref_len"]:
+            if obs["ref_len"] is not None and obs[op]["len"] != obs["ref_len"] and not (obs[op]["len"] is None and not known28):
                 bad.append({"op": op, "what": "total length differs", "got": obs[op]["len"], "expected": obs["ref_len"]})
+        if op == "zero" and obs["ref_len"] is not None and obs[op]["len"] is not None and obs[op]["len"] != obs["ref_len"]:
+            # the generated lengths are non-negative integers: whatever the filter removes has length 0
+            bad.append({"op": op, "what": "total length differs", "got": obs[op]["len"], "expected": obs["ref_len"]})
     return bad
 
 
 def structural(run, n_cases, depth):
     cases, terms, impl_fail = [], [], []
+    known28 = STATE["f28_known"]
     tries = 0
     while len(cases) < n_cases and tries < n_cases * 4:
         tries += 1
-        tree, beam, ex = gen_case(run.rng, depth)
+        tree, beam, ex, shape = gen_case(run.rng, depth)
         try:
             obs = observe(tree, beam, ex)
         except zl.Inexact:
@@ -261,16 +361,36 @@ def structural(run, n_cases, depth):
         n_merge = sum(1 for d in (obs["merged"] or {"ds": []})["ds"] if d[0] == "new")
         nontrivial = len(top) >= 2 and (n_merge > 0 or any(obs[op] and len(obs[op]["ds"]) != len(top) for op in ("markers", "zero"))
                                         or any(d[0] == "new" for d in (obs["drifts"] or {"ds": []})["ds"]))
+        # F28 region: an empty sub-segment or an empty result whose length was obtained and compared is a case of its own
+        empties = [op for op in OPS if obs[op] is not None and not obs[op]["ds"]]
+        if has_empty_seg(tree) or empties:
+            run.count("f28_region_cases")
+            nontrivial = nontrivial or (not known28 and (len(top) >= 1 or bool(empties)))
         run.add_case([zl.shape_sig(tree), beam["type"], tree, beam, ex], nontrivial)
         run.count("beam_" + beam["type"])
         run.count("top_level_%d" % min(len(top), 8))
         run.count("merged_ctms_%d" % min(n_merge, 4))
         run.count("except_for_%d" % min(len(ex), 4))
+        if shape:
+            run.count("f28_shape_" + shape)
         if any(c["kind"] == "seg" for c in top):
             run.count("has_nested_segment")
+        if any(has_empty_seg(c) for c in top):
+            run.count("has_empty_subsegment")
+            if obs["merged"] is not None and any(d[0] == "new" and any(c["kind"] == "seg" and has_empty_seg(c) and c["name"] in d[2].split("_") for c in top)
+                                                  for d in obs["merged"]["ds"]):
+                run.count("merged_run_spans_empty_subsegment")
+        if not top:
+            run.count("empty_top_level_segment")
         for op in OPS:
             if obs[op] is None:
                 run.count(op + "_raised_TypeError_empty_subsegment")
+            elif not obs[op]["ds"]:
+                run.count(op + "_result_is_empty_segment")
+                if obs[op]["len"] is not None:
+                    run.count(op + "_empty_result_length_compared")
+        if obs["ref_len"] is not None and has_empty_seg(tree):
+            run.count("length_of_segment_with_empty_subsegment_compared")
         if obs["zero"] and len(obs["zero"]["ds"]) != len(top):
             run.count("zero_filter_removed_something")
         if obs["drifts"] and any(d[0] == "new" for d in obs["drifts"]["ds"]):
@@ -286,7 +406,29 @@ def structural(run, n_cases, depth):
         terms.append(coq_case(tree, beam, ex, pub))
     if cases:
         run.sample({"tree": cases[0][0], "beam": cases[0][1], "except_for": cases[0][2], "observed": cases[0][3]})
-    failing = common.run_shards(PID, "struct", PREAMBLE, terms, "c08_check")
+    # Which transcription of Segment.length is the faithful one is decided by the status of F28 (see STATE above).  When the
+    # selected checker rejects cases, the OTHER one is evaluated on the same observations to tell a stale status from a defect:
+    #   F28 known + the code behaves like the repaired model everywhere -> the finding no longer reproduces: note, no alarm
+    #                                                                      (the lead flips the status);
+    #   F28 fixed + the code behaves like the model before the repair    -> the repaired defect is back: stays broken; the
+    #                                                                      oracle / the stored input of F28 has the input.
+    primary, other = ("c08_check", "c08_check_len_total") if known28 else ("c08_check_len_total", "c08_check")
+    failing = common.run_shards(PID, "struct", PREAMBLE, terms, primary)
+    run.cov["length_model"] = ("elen_pinned / c08_check (code before the repair of F28: the length of a segment holding an empty segment raises)"
+                               if known28 else "elen_fixed / c08_check_len_total (code after the repair of F28: lengths are total, the empty sum is 0)")
+    if failing:
+        failing_other = common.run_shards(PID, "struct_other", PREAMBLE, terms, other)
+        if not failing_other:
+            if known28:
+                run.notes.append(f"F28: Segment.length behaves like the REPAIRED model ({other}) on all {len(failing)} cases that disagree with {primary} "
+                                 "(lengths of empty segments are 0, nothing raises); the status of F28 is stale (flip it to fixed)")
+                if "F28" not in run.cov["known_findings_not_reproduced"]:
+                    run.cov["known_findings_not_reproduced"].append("F28")
+                failing = []
+            else:
+                STATE["f28_back"] = True
+                run.notes.append(f"F28 is listed fixed but Segment.length behaves like the model of the code BEFORE the repair ({other}) on all "
+                                 f"{len(failing)} cases that disagree with {primary}: the repaired defect is back")
     run.cov["traces_validated_against_impl"] += len(cases)
     return cases, failing, impl_fail
 
@@ -418,7 +560,14 @@ def real_check(lat, beam, ex, ops=OPS):
         return "skipped:exception:" + type(ex_).__name__, []
     if has_nan(ref):
         return "skipped:reference_nan", []      # garbage in (Bmad-X bend at angle 0 ...: finding F8 of C09): unspecified here
-    L0 = torch.as_tensor(seg.length)
+    known28 = STATE["f28_known"]
+    try:
+        L0 = torch.as_tensor(seg.length)
+    except TypeError as ex_:
+        # reduce() of an empty sub-segment's lengths (finding F28)
+        if known28:
+            return "skipped:length_raises_F28", []
+        return "ok", [_f28_regression({"op": (ops[0] if len(ops) == 1 else "length"), "what": f"Segment.length of the original segment raised TypeError: {ex_}"})]
     changers = energy_changers(seg, b)
     fails = []
     for op in ops:
@@ -426,7 +575,8 @@ def real_check(lat, beam, ex, ops=OPS):
             new = apply_op(seg, op, b, ex)
             out = new.track(b)
         except Exception as ex_:
-            fails.append({"op": op, "what": f"raised {type(ex_).__name__}: {ex_}"})
+            f = {"op": op, "what": f"raised {type(ex_).__name__}: {ex_}"}
+            fails.append(_f28_regression(f) if isinstance(ex_, TypeError) and "reduce() of empty" in str(ex_) else f)
             continue
         d = realgen.beams_close(out, ref, rtol=RTOL, atol=ATOL)
         if d:
@@ -435,14 +585,19 @@ def real_check(lat, beam, ex, ops=OPS):
             sh = batch_shape_lost(out, ref)
             if sh:
                 fails.append({"op": op, "what": "outgoing batch shape differs from the original segment's", "shapes": sh})
+        len_raised = None
         try:
-            L1 = torch.as_tensor(new.length) if len(new.elements) else torch.zeros((), dtype=L0.dtype)
+            # while F28 is listed known the length of an EMPTY result is not asked for (it raises; reported through the stored
+            # input of F28); after the repair it is obtained and compared like any other
+            L1 = torch.as_tensor(new.length) if (len(new.elements) or not known28) else torch.zeros((), dtype=L0.dtype)
             x, y = torch.broadcast_tensors(L1.to(L0.dtype), L0)
             len_ok = bool(torch.all((x - y).abs() <= 1e-12 * torch.clamp(y.abs(), min=1.0)))
-        except (TypeError, RuntimeError):
-            L1, len_ok = None, False
+        except (TypeError, RuntimeError) as ex_:
+            L1, len_ok, len_raised = None, False, ex_
         if not len_ok:
-            fails.append({"op": op, "what": "total length differs", "got": None if L1 is None else L1.tolist(), "expected": L0.tolist()})
+            f = {"op": op, "what": "total length differs" if len_raised is None else f"total length differs: length of the result raised {type(len_raised).__name__}: {len_raised}",
+                 "got": None if L1 is None else L1.tolist(), "expected": L0.tolist()}
+            fails.append(_f28_regression(f) if isinstance(len_raised, TypeError) and "reduce() of empty" in str(len_raised) else f)
         if new.name != seg.name:
             fails.append({"op": op, "what": "segment name not kept"})
         w = excepted_ok(seg, new, ex)
@@ -610,6 +765,78 @@ def real_oracle(run, n):
     return new_fail
 
 
+# ---------------------------------------------------------------- real lattices in the region of finding F28
+F28_FILL = ["Drift", "Drift", "Quadrupole", "Solenoid", "HorizontalCorrector", "Marker", "BPM", "Cavity", "Aperture"]
+
+
+def gen_f28_real_case(rng, i):
+    """Real lattices whose results / sub-segments are EMPTY (see gen_f28_tree): all markers; zero-length inactive elements only;
+    an empty sub-segment alone, between skippable elements (one merged run spans it), nested twice, next to a cavity."""
+    def empty(n, depth=0):
+        e = {"cls": "Segment", "name": n, "es": []}
+        for k in range(depth):
+            e = {"cls": "Segment", "name": f"{n}w{k}", "es": [e]}
+        return e
+
+    def fill(n):
+        e = realgen.gen_element(rng, name=n, allow=F28_FILL, method="cheetah")
+        if e["cls"] == "Cavity" and e["kw"]["phase"] == 90.0:          # NaN at the zero crossing (finding F90 of C09)
+            e["kw"]["phase"] = 45.0
+        return e
+    shape = ("all_markers", "markers_and_empty_sub", "only_empty_sub", "empty_sub_in_run", "empty_sub_nested", "empty_top",
+             "all_zero_length", "empty_sub_mixed")[i % 8]
+    if shape == "all_markers":
+        es = [{"cls": "Marker", "name": f"m{k}", "kw": {}} for k in range(rng.randrange(1, 4))]
+    elif shape == "markers_and_empty_sub":
+        es = [{"cls": "Marker", "name": "m0", "kw": {}}, empty("sub"), {"cls": "Marker", "name": "m1", "kw": {}}]
+    elif shape == "only_empty_sub":
+        es = [empty("sub", rng.choice([0, 1]))]
+    elif shape == "empty_sub_in_run":
+        es = [realgen.gen_element(rng, cls="Drift", name="d0", method="cheetah"), empty("sub"),
+              realgen.gen_element(rng, cls="Quadrupole", name="q1", method="cheetah"), realgen.gen_element(rng, cls="Drift", name="d2", method="cheetah")]
+    elif shape == "empty_sub_nested":
+        es = [fill("a0"), empty("sub", 2), fill("a1")]
+    elif shape == "empty_top":
+        es = []
+    elif shape == "all_zero_length":
+        es = [{"cls": "Marker", "name": "m0", "kw": {}}, {"cls": "Drift", "name": "d0", "kw": {"length": 0.0, "tracking_method": "cheetah"}},
+              {"cls": "BPM", "name": "b0", "kw": {"is_active": False}},
+              {"cls": "Quadrupole", "name": "q0", "kw": {"length": 0.0, "k1": 0.0, "tracking_method": "cheetah"}}][:rng.randrange(1, 5)]
+    else:
+        es = [fill(f"a{k}") for k in range(rng.randrange(2, 6))]
+        es.insert(rng.randrange(len(es) + 1), empty("sub"))
+        if rng.random() < 0.5:
+            es.insert(rng.randrange(len(es) + 1), empty("sub2", 1))
+    lat = {"cls": "Segment", "name": "f28seg", "es": es}
+    beam = realgen.gen_particle_beam(rng, energy=1e8) if rng.random() < 0.5 else realgen.gen_parameter_beam(rng, energy=1e8)
+    names = [c["name"] for c in es]
+    ex = [n for n in names if rng.random() < 0.2]
+    return lat, beam, ex, shape
+
+
+def f28_real_oracle(run, n):
+    """the property oracle on real lattices with empty results / empty sub-segments: after the repair of F28 every
+    transformation returns, the result has a length and it equals the original's; while F28 is listed known the lattices whose
+    length raises are skipped (counted) and the empty results' lengths are not asked for"""
+    new_fail = []
+    for i in range(n):
+        lat, beam, ex, shape = gen_f28_real_case(run.rng, i)
+        st, fails = real_check(lat, beam, ex)
+        if st != "ok":
+            run.count("real_f28_" + st)
+            continue
+        run.add_case(["real_f28", lat, beam["type"], ex], True)
+        run.count("real_f28_shape_" + shape)
+        if not STATE["f28_known"]:
+            run.count("real_f28_lengths_of_empty_results_or_subsegments_compared")
+        known, new = classify_real(lat, beam, ex, fails)
+        for k in known:
+            run.known(k)
+        for f in new:
+            new_fail.append({"kind": "real_lattice", "lattice": lat, "beam": beam, "except_for": ex, "failure": f})
+    return new_fail
+
+
 # ---------------------------------------------------------------- vectorised settings
 VEC_FILL = ["Drift", "Quadrupole", "Dipole", "RBend", "Solenoid", "HorizontalCorrector", "VerticalCorrector", "Cavity", "Undulator",
             "Marker", "BPM", "Aperture", "Aperture", "TransverseDeflectingCavity"]
@@ -730,6 +957,13 @@ def vec_oracle(run, n):
     return new_fail
 
 
+def zl_len(seg):
+    try:
+        return torch.as_tensor(seg.length).tolist()
+    except Exception as ex:
+        return f"{type(ex).__name__}"
+
+
 def replay_known(run):
     """known + still failing -> KNOWN-FINDING; known + passing -> note; fixed + failing again -> VIOLATION with the stored input.
     Returns the texts of the fixed entries that regressed."""
@@ -765,6 +999,8 @@ def replay_known(run):
                 new = apply_op(realgen.build(r["lattice"]), r["op"], realgen.build_beam(r["beam"]), r.get("except_for", []))
                 new.length
                 run.cov["known_findings_not_reproduced"].append(f["id"] + ":" + f["what"][:60])
+                run.notes.append(f"{f['id']}: the stored input no longer fails (the length of the empty result is {zl_len(new)}); "
+                                 f"the status of {f['id']} is stale (flip it to fixed)")
             except TypeError:
                 run.known(f["what"])
             continue
@@ -781,14 +1017,18 @@ def main(tier, replay=None):
     run = common.Run(PID, tier)
     common.setup_python_env()
     thorough = tier == "thorough"
-    run.cov["rule"] = ("random integer-valued element trees (depth<=%d; nested/empty sub-segments, repeated names; leaves: energy-dependent skippable "
+    STATE["f28_known"] = f28_known()
+    run.cov["rule"] = ("random integer-valued element trees (depth<=%d; nested/empty sub-segments, repeated names; 15%% of them aimed at empty results and "
+                       "empty sub-segments: all markers, zero-length inactive elements only, an empty (nested) sub-segment alone / inside a merged run / "
+                       "next to non-skippable elements / excepted; leaves: energy-dependent skippable "
                        "test maps, CustomTransferMap, Marker, non-linear energy-changing non-skippable test element; half of the test leaves carry an "
                        "is_active attribute) x both beam types x random except_for lists (subsets of top-level names, absent names, nested names): the "
                        "element lists (identity of kept objects, names, lengths, merged matrices), tracking results and lengths of "
                        "transfer_maps_merged / without_inactive_markers / without_inactive_zero_length_elements / inactive_elements_as_drifts are compared "
                        "exactly with vm_compute of the Coq model; plus the property oracle on random real lattices, scalar and with vectorised settings "
                        "(batch of 2-3 values of voltage / k1 / k / angle / length on one or two elements, zeros mixed with non-zero values). Non-trivial = >=2 top-level elements "
-                       "and at least one transformation changed the element list; distinct by full case content." % (5 if thorough else 3))
+                       "and at least one transformation changed the element list (after the repair of F28 also: an empty result or empty sub-segment whose length "
+                       "was compared); distinct by full case content." % (5 if thorough else 3))
     if replay:
         return do_replay(run, replay)
     proof_ok = run.proof_stage()
@@ -801,9 +1041,16 @@ def main(tier, replay=None):
                                      else "an inactive Undulator must track like the Drift that replaces it (finding F3 repaired)")
     new_real = real_oracle(run, 1500 if thorough else 150)
     new_real += vec_oracle(run, 600 if thorough else 60)
+    new_real += f28_real_oracle(run, 160 if thorough else 24)
     regressed = replay_known(run)
     # failures already reported through the stored input of a fixed entry are not reported a second time
     new_real = [it for it in new_real if not (it["failure"].get("regression_of") and set(it["failure"]["regression_of"]) <= set(regressed))]
+    n_impl = len(impl_fail)
+    impl_fail = [(i, bad) for i, bad in impl_fail if not all(x.get("regression_of") and set(x["regression_of"]) <= set(regressed) for x in bad)]
+    if n_impl != len(impl_fail):
+        run.count("integer_cases_failing_only_by_the_regression_reported_with_the_stored_input", n_impl - len(impl_fail))
+    if failing and STATE["f28_back"] and F28_TEXT in regressed:
+        failing = []      # the disagreement IS the repaired defect F28, back: reported above with its stored input
     run.cov["tested_only"] = ["tracking before/after each transformation on real lattices (float64, rtol 1e-9)",
                               "identity of excepted objects and getattr(segment, name) addressability (Python object identity is outside the model)",
                               "vectorised settings: real lattices with a batch of 2-3 settings on one or two elements (cavity voltages, k1, k, angles, lengths "
@@ -814,6 +1061,7 @@ def main(tier, replay=None):
     if impl_fail:
         i, bad = impl_fail[0]
         tree, beam, ex, obs = cases[i]
+        bad = [x for x in bad if not (x.get("regression_of") and set(x["regression_of"]) <= set(regressed))] or bad
         op, what = bad[0]["op"], bad[0]["what"]
 
         def pred(t):
@@ -849,6 +1097,7 @@ def main(tier, replay=None):
 
 def do_replay(run, path):
     r = json.loads(open(path).read())
+    STATE["f28_known"] = f28_known()
     if r.get("kind") in ("integer_lattice", "correspondence"):
         o = observe(r["tree"], r["beam"], r["except_for"])
         bad = int_oracle(o, r["except_for"])
